@@ -274,11 +274,85 @@ def do_write(c, idx):
     return out
 
 
+def do_shared(c, idx):
+    """several FFI objects in ONE process, some including others: every one is generated before and after being
+    included (and after unrelated FFIs were built); base1 is also written to a file before the includes and
+    regenerated into it afterwards (must be found up to date).  fresh_only: only base1, nothing includes it."""
+    from cffi.recompiler import recompile
+    work = os.path.join(os.environ["VERIF_WORK"], "c23s%d" % idx)
+    os.makedirs(work, exist_ok=True)
+    out = {}
+    for mode in ("c", "py"):
+        def mk(name, cdef, preamble, includes=()):
+            ffi = cffi.FFI()
+            for b in includes:
+                ffi.include(b)
+            if mode == "py":
+                cdef = "".join(l for l in cdef.splitlines(True) if not l.startswith('extern "Python"'))
+            ffi.cdef(cdef)
+            ffi.set_source(name, preamble if mode == "c" else None)
+            return ffi
+        texts = {}
+
+        def gen(label, ffi, step):
+            texts.setdefault(label, []).append((step, emit_text(ffi, mode)))
+
+        def stat(path):
+            st = os.stat(path)
+            return [st.st_ino, st.st_mtime_ns]
+
+        def to_file(ffi, path):
+            module_name, source, source_extension, kwds = ffi._assigned_source
+            return recompile(ffi, module_name, source, c_file=path, call_c_compiler=False, uses_ffiplatform=False, **kwds)[1]
+        target = os.path.join(work, "b1." + mode)
+        if os.path.exists(target):
+            os.unlink(target)
+        base1 = mk("_c23_b1", c["base1"], c["preamble"])
+        up = dict(first=to_file(base1, target))
+        os.utime(target, ns=(10 ** 18, 10 ** 18))
+        st0, b0 = stat(target), read_bytes(target)
+        gen("base1", base1, "before anything includes it")
+        if not c.get("fresh_only"):
+            mid = mk("_c23_mid", c["mid"], "", [base1])
+            gen("mid", mid, "before anything includes it")
+            gen("base1", base1, "after mid.include(base1)")
+            up["again"] = to_file(base1, target)
+            up["stat_unchanged"] = stat(target) == st0
+            up["bytes_unchanged"] = read_bytes(target) == b0
+            base2 = mk("_c23_b2", c["base2"], "")
+            gen("base2", base2, "before anything includes it")
+            top = mk("_c23_top", c["top"], "", [mid, base2])
+            gen("top", top, "first")
+            gen("mid", mid, "after top.include(mid)")
+            gen("base2", base2, "after top.include(base2)")
+            gen("base1", base1, "after top.include(mid) (mid includes base1)")
+            gen("top", top, "again")
+            gen("base1", mk("_c23_b1", c["base1"], c["preamble"]), "a new FFI object with the same declarations, after the includes")
+            gen("base2", mk("_c23_b2", c["base2"], ""), "a new FFI object with the same declarations, after the includes")
+        os.unlink(target)
+        res = {}
+        for label, lst in texts.items():
+            ref = lst[0][1]
+            res[label] = [dict(step=step, sha=hashlib.sha256(t.encode("utf-8", "surrogatepass")).hexdigest(), size=len(t),
+                               diff=None if t == ref else first_diff(ref, t)) for step, t in lst]
+        out[mode] = dict(texts=res, uptodate=up)
+    os.rmdir(work)
+    return out
+
+
+def first_diff(a, b):
+    la, lb = a.splitlines(), b.splitlines()
+    for i, (x, y) in enumerate(zip(la, lb)):
+        if x != y:
+            return "line %d: %r vs %r" % (i + 1, x[:110], y[:110])
+    return "%d vs %d lines" % (len(la), len(lb))
+
+
 def main(payload):
     results = []
     for i, c in enumerate(payload["cases"]):
         try:
-            results.append(do_emit(c) if c["kind"] == "emit" else do_write(c, i))
+            results.append(do_emit(c) if c["kind"] == "emit" else do_shared(c, i) if c["kind"] == "shared" else do_write(c, i))
         except cffi.CDefError as e:
             results.append(dict(cdef_error=str(e)[:300]))
     return dict(results=results, cov=sorted(COV_HITS))
